@@ -241,6 +241,7 @@ int main(int argc, char **argv) {
         }
         if (!v_thorough() && !cfgs[c].quick) continue;
         esx_run(&model);
+        ESX_CYCLES(&model);
     }
     v_finish();
     return (v_sh->viol_count || rc) ? 1 : 0;
